@@ -1777,3 +1777,34 @@ def c12g(F, R):
                 R.bad(f"{name}|skip", f"{name}: a `{skips[0]['k'].lower()}` leaves the per-node body before the node's out-facts are recomputed: a node is not re-evaluated in this sweep (e.g. because its ins did not change), although its transfer function also depends on state other than its ins", loc(skips[0]))
             else:
                 R.ok(f"{name}", detail=f"{name}: all {len(stmts)} statements of the per-node body run for every node in every sweep ({len(pubs)} out-fact setters)")
+
+
+@rule("C01", "C01.j.ecall-results-are-killed", floor=1)
+def c01j(F, R):
+    """an environment call writes its results into registers (a0/a1 for the RARS services): the value pass must drop what it claimed about them, using the signature's result set when the call number is known and a conservative set otherwise; else `li a0,10; li a7,5; ecall` keeps claiming a0 = 10 after ReadInt"""
+    f = _avpass_run(F)
+    body = f["hir"]["value"]
+    kill_locals = {s_["pat"]["name"] for s_ in walk(body, pats=False) if s_.get("k") == "Let" and s_["pat"].get("k") == "PBinding" and s_.get("init") and mentions_call(s_["init"], "kill_reg")}
+    okk = None
+    for n in walk(body, pats=False):
+        if n.get("k") != "If" or not mentions_call(n["cond"], "is_ecall"):
+            continue
+        for a in walk(n["then"], pats=False):
+            if a.get("k") == "AssignOp" and a["op"] == "BitOrAssign" and ekey(a["l"]) in kill_locals:
+                uses_sig = mentions_call(a["r"], "known_ecall_signature")
+                fallback = any(mentions_call(a["r"], nm) or any(x.get("k") == "Path" and short(x.get("res") or "") == nm for x in walk(a["r"], pats=False))
+                               for nm in ("return_set", "argument_set", "caller_saved_set", "all_writable_set"))
+                okk = (uses_sig or fallback, uses_sig, fallback, a)
+            if a.get("k") == "AssignOp" and a["op"] == "SubAssign" and (mentions_call(a["r"], "known_ecall_signature") or mentions_call(a["r"], "return_set")):
+                okk = (True, mentions_call(a["r"], "known_ecall_signature"), mentions_call(a["r"], "return_set"), a)
+    # alternatively the kill set itself knows about ecalls
+    kp = F.method(PNODE, "kill_reg", trait="HasGenKillInfo")
+    in_kill = mentions_call(F.fn(kp)["hir"]["value"], "is_ecall")
+    if okk and okk[0] and okk[2]:
+        R.ok("ecall", detail=f"at `is_ecall()` nodes the kill set gains the signature's results (known number: {okk[1]}) or a conservative register set", where=loc(okk[3]))
+    elif okk and okk[0]:
+        R.bad("ecall", "the ecall kill has no fallback for an unknown call number: results of an unidentified service keep their old claims", loc(okk[3]))
+    elif in_kill:
+        R.ok("ecall", detail="kill_reg() accounts for ecalls itself")
+    else:
+        R.bad("ecall", "the value pass kills nothing at an `ecall`: `li a0, 10; li a7, 5; ecall; addi a7, a0, 0; ecall` is analysed as an exit ecall (a0 is still claimed to be 10 after ReadInt) and the code behind it is reported unreachable", f["sp"])
